@@ -28,6 +28,15 @@ def build(name: str) -> Any:
         return build_mm(name[3:])
 
     s0, s1, s2 = P.Symbol('s0'), P.Symbol('s1'), P.Symbol('s2')
+    from proof_generation.proofs.propositional import neg
+
+    if name == 'neg-raw':
+        # uses the notation object neg without importing the module that declares it: its notation table is empty,
+        # so the same stack items are rendered differently than in 'neg-known'
+        n = P.Implies(neg(s0), neg(P.App(s0, s1)))
+        pe = ProofExp(axioms=[n], claims=[n])
+        pe.add_proof_expression(pe.load_axiom(n))
+        return pe
 
     class M(ProofExp):
         def __init__(self, kind: str) -> None:
@@ -46,6 +55,12 @@ def build(name: str) -> Any:
                 self._axioms = [P.Implies(a, b), P.Implies(b, c)]
                 self._claims = [P.Implies(a, c)]
                 self._proof_expressions = [self.prop.imp_transitivity(self.load_axiom(self._axioms[0]), self.load_axiom(self._axioms[1]))]
+            elif kind == 'neg-known':
+                # the same axiom/claim as 'neg-raw' below; this module knows the propositional notations
+                n = P.Implies(neg(s0), neg(P.App(s0, s1)))
+                self._axioms = [n]
+                self._claims = [n]
+                self._proof_expressions = [self.load_axiom(n)]
             elif kind == 'chain2':
                 a, b, c = P.App(P.App(s0, s1), s2), P.App(P.App(s1, s0), s2), P.App(P.App(s0, s0), s2)
                 self._axioms = [P.Implies(a, b), P.Implies(b, c)]
